@@ -240,7 +240,24 @@ func matrixCmd(args []string) error {
 				break
 			}
 		}
-		for pi, p := range pubs {
+		// the same primaries again under other whites, back to back (what the generator returns
+		// depends on its four arguments only, not on what it was asked before), and the
+		// published spaces with their primaries listed in the other orders (clockwise too)
+		npub := 20
+		var seq []prim
+		for i, p := range pubs {
+			seq = append(seq, p)
+			if i < npub && p.by > 0 {
+				for _, w := range [][2]float64{{d50x, d50y}, {d65x, d65y}, {ex, ey}, {p.wx, p.wy}} {
+					q := p
+					q.wx, q.wy = w[0], w[1]
+					seq = append(seq, q)
+				}
+				seq = append(seq, prim{p.bx, p.by, p.gx, p.gy, p.rx, p.ry, p.wx, p.wy}, prim{p.rx, p.ry, p.bx, p.by, p.gx, p.gy, p.wx, p.wy},
+					prim{p.gx, p.gy, p.bx, p.by, p.rx, p.ry, p.wx, p.wy})
+			}
+		}
+		for pi, p := range seq {
 			r := ciexyy.Color{X: float32(p.rx), Y: float32(p.ry), YY: 1}
 			g := ciexyy.Color{X: float32(p.gx), Y: float32(p.gy), YY: 1}
 			b := ciexyy.Color{X: float32(p.bx), Y: float32(p.by), YY: 1}
@@ -254,11 +271,20 @@ func matrixCmd(args []string) error {
 			case 3:
 				r.YY, g.YY, b.YY = float32(0.2126), float32(0.7152), float32(0.0722)
 			}
-			if b.Y <= 0 { // the generator divides by y: negative / zero y are outside "inside the chromaticity diagram"
+			if b.Y <= 0 || r.Y <= 0 || g.Y <= 0 { // the generator divides by y: negative / zero y are outside "inside the chromaticity diagram"
 				continue
 			}
-			to := ciexyz.TransformToXYZForXYYPrimaries(r, g, b, w)
-			from := ciexyz.TransformFromXYZForXYYPrimaries(r, g, b, w)
+			var to, from matrix.Matrix3
+			panicked := ""
+			func() {
+				defer func() {
+					if x := recover(); x != nil {
+						panicked = fmt.Sprint(x)
+					}
+				}()
+				to = ciexyz.TransformToXYZForXYYPrimaries(r, g, b, w)
+				from = ciexyz.TransformFromXYZForXYYPrimaries(r, g, b, w)
+			}()
 			rows := func(m matrix.Matrix3) [][]dy { // column-major -> rows
 				out := make([][]dy, 3)
 				for rr := 0; rr < 3; rr++ {
@@ -266,7 +292,8 @@ func matrixCmd(args []string) error {
 				}
 				return out
 			}
-			sink.put(dy{"kind": "genmatrix", "p": dy{"r": chroma(r), "g": chroma(g), "b": chroma(b), "w": chroma(w), "wyy": dyadic(float64(w.YY))}, "to": rows(to), "from": rows(from)})
+			sink.put(dy{"kind": "genmatrix", "p": dy{"r": chroma(r), "g": chroma(g), "b": chroma(b), "w": chroma(w), "wyy": dyadic(float64(w.YY))},
+				"to": rows(to), "from": rows(from), "panic": panicked != "", "panic_msg": panicked})
 		}
 		// 3x3 algebra on dyadic matrices: entries k / 2^20 in [-4, 4]
 		const q = 20
